@@ -460,18 +460,12 @@ func r13_5(c *Ctx, r *Report) {
 				env := &dayEnv{now: now, stem: g, terms: map[string]int64{"立春": 0, "清明": 60, "立秋": 185}, lunarMD: [2]int64{0, 0}, problems: problems}
 				ev := &evaluator{leaf: dayLeaf(c, fn.Params[0], env), inline: inlineLibrary}
 				var pushed []string
-				ev.visit = func(fr *evalFrame, call *ssa.Call) {
-					callee := call.Common().StaticCallee()
-					if callee == nil || !strings.HasPrefix(callee.String(), "(*container/list.List).Push") || len(call.Common().Args) != 2 {
-						return
+				ev.collectList(&pushed, func(o interface{}, ok bool) string {
+					if str, isS := o.(string); ok && isS {
+						return str
 					}
-					o, ok := ev.eval(fr, unwrapIface(call.Common().Args[1]), 0)
-					s, isS := o.(string)
-					if !ok || !isS {
-						s = "?"
-					}
-					pushed = append(pushed, s)
-				}
+					return "?"
+				})
 				_, outcome := ev.run(fn, nil, nil, nil, nil)
 				n++
 				var want []string
